@@ -177,11 +177,15 @@ Section Main.
     rewrite app_assoc, <- app_length. apply (get_content_mid (pre ++ D) [a; b] post). discriminate.
   Qed.
 
-  Lemma lint_digits (pre D : text) (a b : N) (sx : suffix) (post : text) :
+  (* the tokens of the document before the later passes: A ++ [the number token carrying the suffix] ++ B, no other
+     number token (used by lint_digits below and by the f64 variant in C17FloatLink.v) *)
+  Lemma doc_digits_shape (pre D : text) (a b : N) (sx : suffix) (post : text) :
     D <> [] -> Forall (fun c => is_ascii_digit c = true) D -> (parse_dec D < two53)%N ->
     In (a, b, sx) from_chars_table ->
     ctx_ok U pre D [a; b] post = true ->
-    lint_text (pre ++ D ++ [a; b] ++ post) = Ok (Some (expected pre D sx (parse_dec D))).
+    exists A5 B5, doc_tokens U ut et (pre ++ D ++ [a; b] ++ post)
+      = Ok (A5 ++ mktok (mkspan (length pre) (length pre + length D + 2)) (KNumber (VInt (parse_dec D)) (Some sx)) :: B5)
+      /\ nonum A5 /\ nonum B5.
   Proof.
     intros Hne HD Hlt Hrow Hctx.
     destruct (lex_doc_shape U ut et L_digit_numeric L_alpha_alnum L_alpha_lingual L_alpha_not_numeric
@@ -189,7 +193,7 @@ Section Main.
     set (p := length pre) in *. set (d := length D) in *.
     set (Nt := mktok (mkspan p (p + d)) (KNumber (VInt (parse_dec D)) None)) in *.
     set (Wt := mktok (mkspan (p + d) (p + d + 2)) KWord) in *.
-    unfold lint_text, doc_tokens. rewrite HL. cbn [bind].
+    unfold doc_tokens. rewrite HL. cbn [bind].
     destruct (condense_spaces_shape LA Nt Wt LB eq_refl eq_refl) as (A1 & B1 & E1 & G1).
     { repeat split; assumption. }
     rewrite E1. cbn [bind].
@@ -204,17 +208,28 @@ Section Main.
       destruct (condense_contractions_shape1 A3 Nm B3 eq_refl eq_refl G3) as (A4 & B4 & E4 & G4).
       rewrite E4. cbn [bind].
       destruct (condense_initialisms_shape1 A4 Nm B4 eq_refl eq_refl G4) as (A5 & B5 & E5 & HnA5 & HnB5).
-      rewrite E5. cbn [bind]. f_equal.
-      rewrite <- rule_filter, post_passes_numbers, rule_filter.
-      unfold Nm.
-      rewrite (rule_one A5 B5 _ _ _ HnA5 HnB5) by (cbn [send]; lia).
-      cbn [send]. unfold expected. fold p d. replace (p + d + 2 - 2) with (p + d) by lia. reflexivity.
+      exists A5, B5. split; [exact E5 | split; assumption].
     - cbn [Wt tspan]. unfold span_len, sub_chk. cbn [sstart send].
       destruct (p + d + 2 <? p + d) eqn:E; [apply Nat.ltb_lt in E; lia|]. f_equal. lia.
     - cbn [Wt tspan]. apply get_content_suffix.
     - apply from_chars_row. exact Hrow.
     - destruct G3 as (H & _). exact H.
     - destruct G3 as (_ & H & _). exact H.
+  Qed.
+
+  Lemma lint_digits (pre D : text) (a b : N) (sx : suffix) (post : text) :
+    D <> [] -> Forall (fun c => is_ascii_digit c = true) D -> (parse_dec D < two53)%N ->
+    In (a, b, sx) from_chars_table ->
+    ctx_ok U pre D [a; b] post = true ->
+    lint_text (pre ++ D ++ [a; b] ++ post) = Ok (Some (expected pre D sx (parse_dec D))).
+  Proof.
+    intros Hne HD Hlt Hrow Hctx.
+    destruct (doc_digits_shape pre D a b sx post Hne HD Hlt Hrow Hctx) as (A5 & B5 & E5 & HnA5 & HnB5).
+    unfold lint_text. rewrite E5. cbn [bind]. f_equal.
+    rewrite <- rule_filter, post_passes_numbers, rule_filter.
+    rewrite (rule_one A5 B5 _ _ _ HnA5 HnB5) by (cbn [send]; lia).
+    cbn [send]. unfold expected.
+    replace (length pre + length D + 2 - 2) with (length pre + length D) by lia. reflexivity.
   Qed.
 
   (* ---- C17_lint_iff ---- *)
